@@ -38,8 +38,9 @@ LEVEL_NOTE = ("Small-scope: grammars with more than 4 non-terminals, alternative
 RULE = ("case = one (grammar, start symbol, dict order): the constructor verdict is compared with the "
         "reference cycle test in both factorization modes and every accepted mode parses all inputs up to "
         "the length bound. Distinct by construction (distinct alternative lists / names / start / order). "
-        "Non-trivial: the grammar has a nullable symbol in front of a non-terminal in some alternative "
-        "(the recursion test has to look behind it) or is left recursive.")
+        "Non-trivial: some alternative has a non-terminal behind a non-empty nullable prefix, so the "
+        "recursion test has to look behind nullable symbols (grammars that are only trivially, "
+        "first-position, recursive do not count).")
 ASSUMPTIONS = [
     "constructor rejections other than GrammarIsRecursive (GrammarError, AssertionError) put a grammar "
     "outside the domain; they are counted, not alarmed on",
@@ -60,6 +61,7 @@ _SIZED = {
 }
 _HIDDEN_L = {"quick": 3, "thorough": 4}
 _HIDDEN_STARTS = {"quick": 1, "thorough": 2}      # start symbol: role R / roles R and S
+_HIDDEN_PREFIX = {"quick": 2, "thorough": 3}      # longest nullable prefix in front of the recursive symbol
 NAMES4 = ("A", "B", "C", "E")
 
 
@@ -70,7 +72,9 @@ def bounds(tier):
          "start_symbols": "every non-terminal", "input_len_max": L,
          "dict_orders": 2 if tier == "thorough" else 1}
         for n, t, ma, ml, ms, L, _ in _SIZED[tier]],
-        "hidden_family": {"grammars_per_name_assignment": sum(1 for _ in G.family_hidden(NAMES4, "xy")),
+        "hidden_family": {"grammars_per_name_assignment":
+                          sum(1 for _ in G.family_hidden(NAMES4, "xy", _HIDDEN_PREFIX[tier])),
+                          "nullable_prefix_len_max": _HIDDEN_PREFIX[tier],
                           "name_assignments": 24, "start_symbols": _HIDDEN_STARTS[tier], "input_len_max": _HIDDEN_L[tier]},
         "modes": ["smart_factorization=True", "smart_factorization=False"],
         "step_budget": H.STEP_BUDGET}
@@ -143,7 +147,10 @@ def check_grammar(cfg, start, prods, inputs, acc, modes=(True, False), tag=None)
                                   "GrammarIsRecursive", "constructor accepts (reference: no cycle)")
                 continue
             if res != "ok":
-                if res.startswith("abort") or res.startswith("raised"):
+                # a left-recursive grammar must be answered with GrammarIsRecursive, whatever else is wrong
+                # with it for the constructor; a constructor that does not come back answers nothing.
+                # (Another exception for a grammar without left recursion is outside the statement.)
+                if res.startswith("abort") or (cyc and res.startswith("raised")):
                     acc.violation("C03:constructor-" + res.replace(":", "-"), case(smart),
                                   f"constructor did not finish normally ({res}) on {G.show(prods, start)}",
                                   res, "GrammarIsRecursive" if cyc else "a parser")
@@ -192,7 +199,7 @@ def check_grammar(cfg, start, prods, inputs, acc, modes=(True, False), tag=None)
                     msg = (f"parse of {cfg.text(toks)!r} neither returned a tree nor raised a parsing "
                            f"error: {payload}: {G.show(prods, start)}")
                 acc.violation(sig, case(smart, toks), msg, r, "a tree or ParsingError")
-    nontrivial = bool(before or cyc)
+    nontrivial = bool(before)
     return sorted(set(feats)), nontrivial, "".join(outcome) + ("/cyc" if cyc else "/acyc")
 
 
@@ -225,7 +232,7 @@ def run_shard(shard, tier, seed, acc):
         cfg = G.letters_cfg("xy")
         inputs = _inputs(cfg, _HIDDEN_L[tier])
         n = 0
-        for prods in G.family_hidden(names, "xy"):
+        for prods in G.family_hidden(names, "xy", _HIDDEN_PREFIX[tier]):
             for start in names[:_HIDDEN_STARTS[tier]]:
                 feats, nt, out = check_grammar(cfg, start, prods, inputs, acc)
                 acc.case(nontrivial=nt, features=feats + ["family:hidden"], outcome=out, traces=2)
